@@ -50,8 +50,9 @@ type wstep struct {
 
 type wcase struct {
 	ID   string  `json:"id"`
-	Mode string  `json:"mode"`
-	Hist []wstep `json:"hist"`
+	Mode  string  `json:"mode"`
+	Outer string  `json:"outer"` // tblank: the mangler list of the transforming source around the Blank
+	Hist  []wstep `json:"hist"`
 }
 
 type wmis struct {
@@ -222,8 +223,12 @@ func runWrapCase(c wcase) (mis []wmis) {
 			panic("reference report failed: " + e.Error())
 		}
 	}
-	if c.Mode == "blank" {
-		d, err = p.Config(ctx, def(), blank)
+	if c.Mode == "blank" || c.Mode == "tblank" {
+		var slot dials.Source = blank
+		if c.Mode == "tblank" {
+			slot = sourcewrap.NewTransformingSource(blank, wmanglers(c.Outer)...)
+		}
+		d, err = p.Config(ctx, def(), slot)
 		if err != nil {
 			return []wmis{{-1, "ref", "Config with a Blank failed: " + err.Error()}}
 		}
@@ -262,7 +267,7 @@ func runWrapCase(c wcase) (mis []wmis) {
 	skipNext := false
 	for i, h := range hist {
 		step = i
-		if c.Mode != "blank" {
+		if c.Mode == "direct" {
 			step = i + 1
 		}
 		if skipNext {
@@ -277,7 +282,12 @@ func runWrapCase(c wcase) (mis []wmis) {
 			in1.entered, in1.gate = make(chan struct{}), make(chan struct{})
 			var err1, err2 error
 			done1, done2 := make(chan struct{}), make(chan struct{})
-			pctx, pcancel := context.WithTimeout(ctx, 3*time.Second)
+			// with the monitor gone each call can only end by its context expiring (as the model predicts)
+			pairTimeout := 5 * time.Second
+			if !alive {
+				pairTimeout = 300 * time.Millisecond
+			}
+			pctx, pcancel := context.WithTimeout(ctx, pairTimeout)
 			go func() { defer close(done1); err1 = blank.SetSource(pctx, wsource(in1, h.Wrap)) }()
 			select {
 			case <-in1.entered:
@@ -294,7 +304,7 @@ func runWrapCase(c wcase) (mis []wmis) {
 			for _, dch := range []chan struct{}{done1, done2} {
 				select {
 				case <-dch:
-				case <-time.After(3 * time.Second):
+				case <-time.After(20 * time.Second):
 					hung = true
 				}
 			}
